@@ -40,6 +40,8 @@ var checks = map[string]entry{
 	"C18": {"fault_enumeration", props.C18},
 	"C19": {"model_checking", props.C19},
 	"C20": {"model_checking", props.C20},
+	// development entry: the composition behaviours alone, every clause reported (not registered in MANIFEST.json)
+	"DISK": {"model_checking", props.DiskAll},
 }
 
 func main() {
